@@ -93,6 +93,13 @@ class Result:
         self.notes += o.notes
 
 
+_TASKS = []
+
+
+def _worker_index(i):
+    return _worker_entry(_TASKS[i])
+
+
 def _worker_entry(args):
     fn, wargs = args
     try:
@@ -111,10 +118,14 @@ def run_workers(fn, arglist, procs=None):
         for a in arglist:
             total.merge(_worker_entry((fn, a)))
         return total
+    # tasks are inherited through fork (they may contain closures); only the index is sent to the worker
+    global _TASKS
+    _TASKS = [(fn, a) for a in arglist]
     ctx = multiprocessing.get_context("fork")
     with ctx.Pool(procs) as pool:
-        for r in pool.imap_unordered(_worker_entry, [(fn, a) for a in arglist]):
+        for r in pool.imap_unordered(_worker_index, range(len(_TASKS))):
             total.merge(r)
+    _TASKS = []
     return total
 
 
